@@ -3,7 +3,9 @@ EXTENDS CodeCache
 MC_Procs == {"p1", "p2"}
 MC_Procs3 == {"p1", "p2", "p3"}
 MC_Decls == {"A", "B", "Bp"}
-MC_SizeOf == [A |-> 1, B |-> 2, Bp |-> 2]       \* B and Bp generate source of the same length
+MC_Decls4 == {"A", "B", "Bp", "Ao"}          \* Ao: the fields of A under other code-generation options
+MC_Order == [p1 |-> 1, p2 |-> 2, p3 |-> 3]
+MC_SizeOf == [A |-> 1, B |-> 2, Bp |-> 2, Ao |-> 3]       \* B and Bp generate source of the same length
 MC_AllShapes == {"complete", "empty", "nocookie", "cookie_nofn", "broken"}
 MC_CompleteOnly == {"complete"}
 =============================================================================
